@@ -8,10 +8,10 @@
   envelope and assertion content of the shared `Sp.process`, every set of private keys, damaged or
   intact ciphertext.
 
-  The pinned code does not meet the property on two input classes (see `earlyReturnClass`,
-  `objectFormClass` in Spec/C16.lean): for those the full statements are kept as `def … _full : Prop`,
-  proved under the decidable side condition (`_partial`) and refuted from a concrete witness
-  (`_counterexample`).
+  Two defects of the pinned tree (the early return of `_response` before the advice was encrypted;
+  `pre_encrypt_assertion` applied twice to a message still in object form) were repaired in /repo by
+  130fd4d2 and 9b391349; the model mirrors the repaired code and every statement is proved at full
+  strength.  The former counterexample witnesses are kept as regression examples.
 -/
 import PysamlModel.Proofs.C16
 
@@ -61,7 +61,7 @@ theorem C16_confidential_assertion (c : Call) (iss : Issued) (outerHasAttrs : Bo
     rcases response_inv h with ⟨he', _⟩ | ⟨_, hk', _⟩ | ⟨_, _, opsB, advB, ko, _, hs, _, hw⟩ | ⟨_, hk', _⟩
     · rw [he] at he'; cases he'
     · rw [hk] at hk'; cases hk'
-    · rcases encryptStep_inv hs with ⟨hn, _⟩ | ⟨k', hk', hko, _⟩
+    · rcases encryptStep_inv hs with ⟨hn, _⟩ | ⟨k', hk', hko⟩
       · rw [hc] at hn; cases hn
       · rw [hc] at hk'; cases hk'
         subst hko
@@ -77,26 +77,16 @@ example : effA callRotate = true ∧ (wireOfCall callRotate).body = .sealed 2 {}
 
 /-! ### confidentiality of the advice -/
 
-/-- C16, confidentiality of the advice, FULL statement: whenever advice encryption is requested
+/-- C16, confidentiality of the advice: whenever advice encryption is requested
     (`encrypted_advice_attributes` or PEFIM, and there is an advice assertion) and the designated
-    certificate is usable, the issued Response shows neither a clear-text advice assertion nor any of
-    its attribute values. -/
-def C16_confidential_advice_full : Prop :=
-  ∀ (c : Call) (iss : Issued) (outerHasAttrs : Bool), effAdv c = true → createAuthnResponse c = .ok iss →
-    (clearOf outerHasAttrs iss.wire).adviceAssertion = false ∧ (clearOf outerHasAttrs iss.wire).attrsAdvice = false
-
-/-- … holds for every call outside the early-return class; the advice is then sealed for one of the
-    recipient's designated certificates. -/
-theorem C16_confidential_advice_partial (c : Call) (iss : Issued) (outerHasAttrs : Bool)
-    (heff : effAdv c = true) (hcls : earlyReturnClass c = false) (h : createAuthnResponse c = .ok iss) :
+    certificate is usable, the issued Response shows neither a clear-text advice assertion nor any of its
+    attribute values: the advice leaves sealed for one of the recipient's designated certificates —
+    for every setting of the other flags (in particular whatever is signed) and every metadata. -/
+theorem C16_confidential_advice (c : Call) (iss : Issued) (outerHasAttrs : Bool)
+    (heff : effAdv c = true) (h : createAuthnResponse c = .ok iss) :
     ((clearOf outerHasAttrs iss.wire).adviceAssertion = false ∧ (clearOf outerHasAttrs iss.wire).attrsAdvice = false) ∧
     ∃ k adv, iss.wire.body.outer.advice = some (.sealed k adv true) ∧ k ∈ candidates c.certAdvice c.md := by
-  have he : earlyReturn c.rargs = false := by
-    rw [earlyReturn_iff]
-    unfold earlyReturnClass at hcls
-    rw [heff] at hcls
-    simpa using hcls
-  obtain ⟨k, adv, hadv, hc⟩ := advice_sealed heff he h
+  obtain ⟨k, adv, hadv, hc⟩ := advice_sealed heff h
   refine ⟨?_, k, adv, hadv, chooseCert_key_mem hc⟩
   unfold clearOf
   cases hb : iss.wire.body with
@@ -110,37 +100,31 @@ theorem C16_confidential_advice_partial (c : Call) (iss : Issued) (outerHasAttrs
     simp only [Body.outer] at hadv
     simp [Outer.adviceClear, hadv, AdvBox.isClearText]
 
-/-- the witness: PEFIM, sign_assertion=True, sign_response=False, encrypt_assertion=False, the recipient
-    publishes one usable encryption certificate -/
+/-- the former counterexample (repaired by 130fd4d2): PEFIM, sign_assertion=True, sign_response=False,
+    encrypt_assertion=False, the recipient publishes one usable encryption certificate -/
 def earlyWitness : Call :=
   { kw := ⟨some false, some true, some false, none, none⟩, pefim := true, md := [⟨.encryption, 1, true⟩] }
 
-theorem C16_confidential_advice_counterexample : ¬ C16_confidential_advice_full := by
-  intro hfull
-  have := hfull earlyWitness
-    { ops := [.signAssertion],
-      wire := { sig := none, body := .clear { sig := some (some (.clear ⟨false, false⟩)), advice := some (.clear ⟨false, false⟩) } },
-      trace := { branch := .early } } false (by decide) rfl
-  revert this
-  decide
-
-example : effAdv callAdvOnly = true ∧ earlyReturnClass callAdvOnly = false ∧
+example : effAdv callAdvOnly = true ∧
     (wireOfCall callAdvOnly).body.outer.advice = some (.sealed 1 ⟨false, false⟩ true) := by decide
-example : effAdv earlyWitness = true ∧ earlyReturnClass earlyWitness = true := by decide
+/-- regression: the old early-return input now has its advice sealed before the assertion is signed -/
+example : effAdv earlyWitness = true ∧ earlyReturnClass earlyWitness = true ∧
+    createAuthnResponse earlyWitness = .ok
+      { ops := [.encAdvice 1, .signAssertion], wire := wireOfCall earlyWitness,
+        trace := { branch := .encrypting, partB := true } } ∧
+    (wireOfCall earlyWitness).body.outer.advice = some (.sealed 1 ⟨false, false⟩ true) :=
+  ⟨by decide, by decide, rfl, by decide⟩
+/-- the early return is still taken when no advice is left to encrypt -/
+example : createAuthnResponse { earlyWitness with pefim := false } = .ok
+    { ops := [.signAssertion], wire := { sig := none, body := .clear { sig := some none, advice := none } },
+      trace := { branch := .early } } := rfl
 
 /-! ### a Response is issued -/
 
-/-- C16, FULL statement: every combination of the flags whose requested encryptions have a usable
-    certificate yields a Response. -/
-def C16_issued_full : Prop := ∀ c : Call, wellPosed c = true → ∃ iss, createAuthnResponse c = .ok iss
-
-/-- … holds for every call in which no encryption step meets a message that is still an object. -/
-theorem C16_issued_partial (c : Call) (hw : wellPosed c = true) (hcls : objectFormClass c = false) :
-    ∃ iss, createAuthnResponse c = .ok iss := by
+/-- C16, every combination works: every setting of the flags whose requested encryptions have a usable
+    certificate yields a Response (signed or not, self-contained or not, PEFIM or not). -/
+theorem C16_issued (c : Call) (hw : wellPosed c = true) : ∃ iss, createAuthnResponse c = .ok iss := by
   obtain ⟨_, hA, hAdv⟩ := wellPosed_facts hw
-  unfold objectFormClass at hcls
-  simp only [Bool.or_eq_false_iff] at hcls
-  obtain ⟨hoA, hoAdv⟩ := hcls
   -- part B succeeds
   have hB : ∃ opsB advB, partB c.rargs = .ok (opsB, advB) := by
     unfold partB
@@ -153,16 +137,7 @@ theorem C16_issued_partial (c : Call) (hw : wellPosed c = true) (hcls : objectFo
       | true =>
         have heff := hAdv (requestedAdv_of_kept hk (by rw [hadv]; rfl))
         obtain ⟨_, _, _, k, hc⟩ := effAdv_facts heff
-        have hf : formB c.rargs = .str := by
-          rw [heff] at hoAdv
-          unfold formB signsAdvice
-          have h1 : c.rargs.selfContained = (c.opts.selfContained || c.pefim) := rfl
-          have h2 : c.rargs.signAssertion = c.opts.signAssertion := rfl
-          have h3 : c.rargs.pefim = c.pefim := rfl
-          rw [h1, h2, h3]
-          cases hs : (c.opts.selfContained || c.pefim) <;> cases hsa : c.opts.signAssertion <;> cases hp : c.pefim <;>
-            simp_all
-        simp only [Bool.not_true, Bool.false_eq_true, if_false, hc, hf, encryptStep]
+        simp only [Bool.not_true, Bool.false_eq_true, if_false, hc, encryptStep, Option.isNone_some, Bool.false_and]
         exact ⟨_, _, rfl⟩
   obtain ⟨opsB, advB, hB⟩ := hB
   unfold createAuthnResponse response
@@ -176,15 +151,8 @@ theorem C16_issued_partial (c : Call) (hw : wellPosed c = true) (hcls : objectFo
       simp only [Bool.true_or, if_true, hB]
       have heff := hA (requestedA_of_kept hk)
       obtain ⟨_, _, _, k, hc⟩ := effA_facts heff
-      have hf : formC c.rargs = .str := by
-        rw [heff] at hoA
-        unfold formC
-        have h1 : c.rargs.selfContained = (c.opts.selfContained || c.pefim) := rfl
-        have h2 : c.rargs.signAssertion = c.opts.signAssertion := rfl
-        rw [h1, h2]
-        cases hs : (c.opts.selfContained || c.pefim) <;> cases hsa : c.opts.signAssertion <;> simp_all
       unfold partC
-      simp only [hc, hf, encryptStep]
+      simp only [hc, encryptStep]
       exact ⟨_, rfl⟩
     | false =>
       simp only [Bool.false_or]
@@ -192,20 +160,21 @@ theorem C16_issued_partial (c : Call) (hw : wellPosed c = true) (hcls : objectFo
       | true => simp only [if_true, hB, Bool.false_eq_true, if_false]; exact ⟨_, rfl⟩
       | false => exact ⟨_, rfl⟩
 
-/-- the witness: encrypt_assertion=True, encrypt_assertion_self_contained=False, nothing signed, the
-    recipient publishes one usable encryption certificate -/
+/-- the former counterexample (repaired by 9b391349): encrypt_assertion=True,
+    encrypt_assertion_self_contained=False, nothing signed, one usable encryption certificate -/
 def objectFormWitness : Call :=
   { kw := ⟨some false, some false, some true, some false, some false⟩, md := [⟨.encryption, 1, true⟩] }
 
-theorem C16_issued_counterexample : ¬ C16_issued_full := by
-  intro hfull
-  obtain ⟨iss, h⟩ := hfull objectFormWitness (by decide)
-  have : createAuthnResponse objectFormWitness = .error .objectForm := rfl
-  rw [this] at h
-  cases h
-
-example : wellPosed callPefim = true ∧ objectFormClass callPefim = false := by decide
-example : wellPosed objectFormWitness = true ∧ objectFormClass objectFormWitness = true := by decide
+example : wellPosed callPefim = true := by decide
+/-- regression: the old object-form input now yields a sealed assertion -/
+example : wellPosed objectFormWitness = true ∧ objectFormClass objectFormWitness = true ∧
+    (wireOfCall objectFormWitness).body = .sealed 1 {} true ∧
+    createAuthnResponse objectFormWitness = .ok
+      { ops := [.encAssertion 1], wire := wireOfCall objectFormWitness,
+        trace := { branch := .encrypting, partC := true } } :=
+  ⟨by decide, by decide, by decide, rfl⟩
+/-- the remaining refusals: no usable certificate at all -/
+example : createAuthnResponse { objectFormWitness with md := [⟨.encryption, 3, false⟩] } = .error .noUsableCert := rfl
 
 /-! ### whose key -/
 
@@ -223,7 +192,7 @@ theorem C16_key_of_recipient (c : Call) (iss : Issued) (h : createAuthnResponse 
   · rw [hw]
     constructor
     · intro k o b hb
-      rcases encryptStep_inv hst with ⟨_, hko⟩ | ⟨k', hk', hko, _⟩
+      rcases encryptStep_inv hst with ⟨_, hko⟩ | ⟨k', hk', hko⟩
       · subst hko; cases hb
       · subst hko
         simp only [wireOf, sealBody, Body.sealed.injEq] at hb
@@ -360,15 +329,15 @@ example : (inputOf { callEnc with kw := ⟨some false, some true, some true, non
     (wireOfCall { callEnc with kw := ⟨some false, some true, some true, none, none⟩ }) = .rejected .sigMissingResponse := by decide
 example : (receive (inputOf callAdvOnly [2] false).rc ((inputOf callAdvOnly [2] false).sent (wireOfCall callAdvOnly))).adviceVisible = false := by decide
 
-/-- C16, signatures verify at the recipient: for a well-posed call outside the early-return class the
+/-- C16, signatures verify at the recipient: for every well-posed call the
     Response signature (computed after encryption) and the assertion signature (computed before the
     assertion is sealed, after its advice is) are valid when the recipient checks them, and present
     exactly when requested. -/
 theorem C16_signatures_verify (c : Call) (iss : Issued) (hw : wellPosed c = true)
-    (hcls : earlyReturnClass c = false) (h : createAuthnResponse c = .ok iss) :
+    (h : createAuthnResponse c = .ok iss) :
     respSig iss.wire = (if c.opts.signResponse then .valid else .absent) ∧
     outerSig iss.wire.body.outer = (if c.opts.signAssertion then .valid else .absent) := by
-  obtain ⟨advB, hok, hshape⟩ := wellPosed_shape hw hcls h
+  obtain ⟨advB, hok, hshape⟩ := wellPosed_shape hw h
   rcases hshape with ⟨k, _, _, hwire⟩ | ⟨_, _, hwire⟩
   · rw [hwire]
     refine ⟨?_, outerSig_ok _ hok⟩
@@ -381,24 +350,26 @@ theorem C16_signatures_verify (c : Call) (iss : Issued) (hw : wellPosed c = true
 
 example : wellPosed callAdvOnly = true ∧ respSig (wireOfCall callAdvOnly) = .valid ∧
     outerSig (wireOfCall callAdvOnly).body.outer = .valid := by decide
-/-- outside the theorem's hypotheses: after the early return the signed assertion contains PEFIM's
-    Issuer-less advice assertion in clear and the signature check refuses it -/
-example : outerSig (wireOfCall earlyWitness).body.outer = .corrupted := by decide
+/-- regression (130fd4d2): the assertion of the old early-return input is now signed over its sealed advice -/
+example : outerSig (wireOfCall earlyWitness).body.outer = .valid := by decide
+/-- outside the theorem's hypotheses (no certificate at all): PEFIM's Issuer-less advice assertion stays in
+    clear inside the signed assertion and the signature check refuses it -/
+example : outerSig (wireOfCall { earlyWitness with md := [] }).body.outer = .corrupted := by decide
 
-/-- C16, recoverable: for a well-posed call outside the early-return class, an undamaged Response and a
+/-- C16, recoverable: for every well-posed call, an undamaged Response and a
     recipient holding the private key(s) matching what was sealed — whenever the recipient's model accepts
     the same Response with the assertion in clear and the requested signatures in place (otherwise valid,
     signature policy satisfied), it accepts the encrypted one and reports exactly the same identity; the
     reported subject identifier is the issued one and the advice assertion's content is read.  For every
     sign / encrypt combination, every recipient configuration, clock, envelope and assertion content. -/
 theorem C16_recoverable (i : Input) (iss : Issued) (hw : wellPosed i.call = true)
-    (hcls : earlyReturnClass i.call = false) (h : createAuthnResponse i.call = .ok iss) (hnt : i.tamper = false)
+    (h : createAuthnResponse i.call = .ok iss) (hnt : i.tamper = false)
     (hkA : ∀ k o b, iss.wire.body = .sealed k o b → i.rc.holds k = true)
     (hkAdv : ∀ k adv b, iss.wire.body.outer.advice = some (.sealed k adv b) → i.rc.holds k = true)
     (o : Sp.Reported) (hplain : Sp.process i.cfg i.env (plainVariant i) = .identity o) :
     i.outcome iss.wire = .identity o ∧ o.nameId = i.content.subject.bind (·.nameId) ∧
     (i.hasAdvice = true → (receive i.rc (i.sent iss.wire)).adviceVisible = true) := by
-  obtain ⟨h1, h2, h3, h4⟩ := receive_wellPosed hw hcls h hnt hkA hkAdv
+  obtain ⟨h1, h2, h3, h4⟩ := receive_wellPosed hw h hnt hkA hkAdv
   rw [plainVariant_eq] at hplain
   refine ⟨?_, (Sp.process_nameId hplain : o.nameId = (asrtOf i).subject.bind (·.nameId)), h4⟩
   unfold Input.outcome
@@ -462,13 +433,13 @@ theorem specConfA_model (i : Input) (iss : Issued) (h : createAuthnResponse i.ca
     obtain ⟨⟨k, o, hb, _⟩, hclear⟩ := C16_confidential_assertion i.call iss i.outerHasAttrs heff h
     simp [obsOk, hclear, wireObs, hb, bodyKind]
 
-theorem specConfAdv_model (i : Input) (iss : Issued) (hcls : earlyReturnClass i.call = false)
+theorem specConfAdv_model (i : Input) (iss : Issued)
     (h : createAuthnResponse i.call = .ok iss) : specConfAdv i (obsOk i iss) = true := by
   unfold specConfAdv
   cases heff : effAdv i.call with
   | false => simp
   | true =>
-    obtain ⟨⟨h1, h2⟩, _⟩ := C16_confidential_advice_partial i.call iss i.outerHasAttrs heff hcls h
+    obtain ⟨⟨h1, h2⟩, _⟩ := C16_confidential_advice i.call iss i.outerHasAttrs heff h
     simp [obsOk, h1, h2]
 
 theorem specKey_model (i : Input) (iss : Issued) (h : createAuthnResponse i.call = .ok iss) :
@@ -563,7 +534,7 @@ theorem specCorrupt_model (i : Input) (iss : Issued) : specCorrupt i (obsOk i is
       | noIdentity => simp [spObs]
       | rejected e => simp [spObs]
 
-theorem specRecover_model (i : Input) (iss : Issued) (hcls : earlyReturnClass i.call = false)
+theorem specRecover_model (i : Input) (iss : Issued)
     (h : createAuthnResponse i.call = .ok iss) : specRecover i (obsOk i iss) = true := by
   unfold specRecover
   cases hhyp : (wellPosed i.call && (obsOk i iss).issued && !(obsOk i iss).tampered &&
@@ -573,7 +544,7 @@ theorem specRecover_model (i : Input) (iss : Issued) (hcls : earlyReturnClass i.
   | true =>
     simp only [Bool.and_eq_true, Bool.or_eq_true, Bool.not_eq_true', bne_iff_ne, ne_eq] at hhyp
     obtain ⟨⟨⟨⟨⟨hw, _⟩, htam⟩, hkb⟩, hka⟩, hpl⟩ := hhyp
-    have hct := shape_hasCiphertext hw hcls h
+    have hct := shape_hasCiphertext hw h
     have hnt : i.tamper = false := by
       simp only [obsOk, hct, Bool.and_true] at htam
       exact htam
@@ -592,41 +563,37 @@ theorem specRecover_model (i : Input) (iss : Issued) (hcls : earlyReturnClass i.
     | noIdentity => rw [hout] at hpl; cases hpl
     | rejected e => rw [hout] at hpl; cases hpl
     | identity o =>
-      obtain ⟨h1, h2, h3⟩ := C16_recoverable i iss hw hcls h hnt hkA hkAdv o hout
+      obtain ⟨h1, h2, h3⟩ := C16_recoverable i iss hw h hnt hkA hkAdv o hout
       simp only [Bool.not_true, Bool.false_or, obsOk, h1, spObs, h2, beq_self_eq_true, Bool.and_true, Bool.true_and]
       cases hadv : i.hasAdvice with
       | false => simp
       | true => simp [h3 hadv]
 
-theorem specOrder_model (i : Input) (iss : Issued) (hcls : earlyReturnClass i.call = false)
+theorem specOrder_model (i : Input) (iss : Issued)
     (h : createAuthnResponse i.call = .ok iss) : specOrder i (obsOk i iss) = true := by
   unfold specOrder
   cases hw : wellPosed i.call with
   | false => simp
   | true =>
-    obtain ⟨advB, _, hshape⟩ := wellPosed_shape hw hcls h
+    obtain ⟨advB, _, hshape⟩ := wellPosed_shape hw h
     have hord := C16_ops_ordered i.call iss h
     simp only [obsOk, Bool.and_self, Bool.not_true, Bool.false_or, hord, Bool.and_true]
     rcases hshape with ⟨k, _, _, hwire⟩ | ⟨_, _, hwire⟩ <;> rw [hwire] <;>
       cases i.call.opts.signResponse <;> cases i.call.opts.signAssertion <;> simp [wireObs, wireOf, Body.outer]
 
-theorem specIssued_model (i : Input) (hcls : objectFormClass i.call = false) : specIssued i (observe i) = true := by
+theorem specIssued_model (i : Input) : specIssued i (observe i) = true := by
   unfold specIssued
   cases hw : wellPosed i.call with
   | false => rfl
   | true =>
-    obtain ⟨iss, h⟩ := C16_issued_partial i.call hw hcls
+    obtain ⟨iss, h⟩ := C16_issued i.call hw
     rw [observe_ok h]
     rfl
 
-/-- FULL statement: the model's observation satisfies the decidable specification the driver evaluates
-    on the implementation's observation. -/
-def C16_model_meets_spec_full : Prop := ∀ i : Input, spec i (observe i) = true
-
-/-- … holds for every input outside the two classes on which the pinned code is known to fail. -/
-theorem C16_model_meets_spec_partial (i : Input) (hearly : earlyReturnClass i.call = false)
-    (hobj : objectFormClass i.call = false) : spec i (observe i) = true := by
-  have hiss := specIssued_model i hobj
+/-- The model's observation satisfies the decidable specification the driver evaluates on the
+    implementation's observation — for every input. -/
+theorem C16_model_meets_spec (i : Input) : spec i (observe i) = true := by
+  have hiss := specIssued_model i
   cases h : createAuthnResponse i.call with
   | error e =>
     rw [observe_err h] at hiss ⊢
@@ -634,18 +601,16 @@ theorem C16_model_meets_spec_partial (i : Input) (hearly : earlyReturnClass i.ca
     simp [specConfA, specConfAdv, specKey, specRecover, specWrongKey, specCorrupt, specOrder]
   | ok iss =>
     rw [observe_ok h] at hiss ⊢
-    simp only [spec, hiss, specConfA_model i iss h, specConfAdv_model i iss hearly h, specKey_model i iss h,
-      specRecover_model i iss hearly h, specWrongKey_model i iss, specCorrupt_model i iss,
-      specOrder_model i iss hearly h, Bool.and_self]
+    simp only [spec, hiss, specConfA_model i iss h, specConfAdv_model i iss h, specKey_model i iss h,
+      specRecover_model i iss h, specWrongKey_model i iss, specCorrupt_model i iss,
+      specOrder_model i iss h, Bool.and_self]
 
-theorem C16_model_meets_spec_counterexample : ¬ C16_model_meets_spec_full := by
-  intro hfull
-  have := hfull { call := objectFormWitness }
-  revert this
-  decide
-
-example : earlyReturnClass callPefim = false ∧ objectFormClass callPefim = false ∧
-    spec (inputOf callPefim [1] false) (observe (inputOf callPefim [1] false)) = true := by decide
-example : spec (inputOf earlyWitness [1] false) (observe (inputOf earlyWitness [1] false)) = false := by decide
+example : spec (inputOf callPefim [1] false) (observe (inputOf callPefim [1] false)) = true := by decide
+/-- regressions: the two former counterexamples now satisfy the specification -/
+example : spec (inputOf earlyWitness [1] false) (observe (inputOf earlyWitness [1] false)) = true ∧
+    (observe (inputOf earlyWitness [1] false)).leak.attrsAdvice = false ∧
+    (observe (inputOf earlyWitness [1] false)).wire.advice = .sealed := by decide
+example : spec (inputOf objectFormWitness [1] false) (observe (inputOf objectFormWitness [1] false)) = true ∧
+    (observe (inputOf objectFormWitness [1] false)).issued = true := by decide
 
 end C16
